@@ -503,7 +503,7 @@ fn gen_step(ty: &Ty, dec: &Decoded, bytes: &[u8], t: &mut Tape, cfg: &HistCfg, s
                     let x = if default {
                         default_value(it)
                     } else {
-                        let mut f = if t.chance(1, 5) { Fuel { elems: 300, max_len: 260, overlong: false } } else { fuel };
+                        let mut f = if t.chance(1, 5) { Fuel { elems: 300, max_len: 260, overlong: true } } else { fuel };
                         gen_value(it, t, &mut f)
                     };
                     // where would the new slot go?
